@@ -135,15 +135,19 @@ def gen(tier, rng):
             c = M.merge_case(rng, nprobes=2 + i % 2)
             yield dict(p=PID, probes=c['probes'], dirnames=c['dirnames'], factor=1, label=['', 'probe01'][i % 2])
             continue
+        huge = not q and i in (8, 1508)
+        # (the exporter recomputes the peak channels of ALL clusters once per cluster id, so a dataset with ids
+        # beyond 32767 costs time quadratic in the largest id: such datasets are kept narrow and short)
         spec = DC.dense_spec(rng, raw=(i % 3 != 2), feats=(i % 2 == 0) and i % 23 != 3, probes=(i % 5 == 0), empty=['none', 'last', 'middle', 'first'][i % 4],
-                             cmap=['identity', 'random'][i % 2], nc=(1 if i % 23 == 3 else None))      # also single-channel datasets
+                             cmap=['identity', 'random'][i % 2], nc=(2 if huge else 1 if i % 23 == 3 else None),      # also single-channel datasets
+                             nsw=(2 if huge else None))
         if i % 4 == 1:
             spec['text_files'] = {'cluster_KSLabel.tsv': 'cluster_id\tKSLabel\n0\tgood\n1\tmua\n'}
         if i % 7 == 3:
             spec['vec2d'] = True
         if i % 3 == 1:     # probe coordinates stored as integers
             spec['dtypes'] = dict(spec.get('dtypes') or {}, channel_positions=['int32', 'uint32', 'int64', 'uint16'][(i // 3) % 4])
-        if i % 50 == 7 or (not q and i % 500 == 8):
+        if i % 50 == 7 or huge:
             # large cluster ids (beyond 255; in the thorough tier beyond 32767): the exported id tables are uint16
             big = 300 if i % 50 == 7 else 33000
             sc_ = list(spec.get('spike_clusters') or spec['spike_templates'])
